@@ -481,6 +481,41 @@ func c27Labels(sc *c27Scenario, sigHashes []*big.Int) (mixed bool, labels []stri
 	return
 }
 
+// c27Validate parses the signed transaction as the network would and executes
+// every input with btcd's script engine under the standard flags against the
+// locking script and amount the harness recorded. It returns the first input
+// the interpreter rejects (structural mismatches are fatal at once).
+func c27Validate(t *rapid.T, sc *c27Scenario, tx *bitcoin.Transaction) (int, []byte, error) {
+	raw := tx.Serialize()
+	var msg wire.MsgTx
+	if err := msg.Deserialize(bytes.NewReader(raw)); err != nil {
+		t.Fatalf("the signed transaction does not parse: %v", err)
+	}
+	if len(msg.TxIn) != len(sc.inputs) || len(msg.TxOut) != len(sc.outputs) {
+		t.Fatalf("signed transaction has %d inputs / %d outputs, built with %d / %d", len(msg.TxIn), len(msg.TxOut), len(sc.inputs), len(sc.outputs))
+	}
+	for i, o := range sc.outputs {
+		if msg.TxOut[i].Value != o.Value || !bytes.Equal(msg.TxOut[i].PkScript, o.PublicKeyScript) {
+			t.Fatalf("output %d of the signed transaction differs from the output added to the builder", i)
+		}
+	}
+	hashCache := txscript.NewTxSigHashes(&msg)
+	for i, in := range sc.inputs {
+		op := msg.TxIn[i].PreviousOutPoint
+		if bitcoin.Hash(op.Hash) != in.utxo.Outpoint.TransactionHash || op.Index != in.utxo.Outpoint.OutputIndex {
+			t.Fatalf("input %d spends %v, the builder was given %x:%d", i, op, in.utxo.Outpoint.TransactionHash, in.utxo.Outpoint.OutputIndex)
+		}
+		engine, err := txscript.NewEngine(in.pkScript, &msg, i, txscript.StandardVerifyFlags, nil, hashCache, in.utxo.Value)
+		if err != nil {
+			return i, raw, fmt.Errorf("script engine refused the input: %v", err)
+		}
+		if err := engine.Execute(); err != nil {
+			return i, raw, err
+		}
+	}
+	return -1, raw, nil
+}
+
 // ---------------------------------------------------------------------------
 // Clause 1: the signed transaction passes the script interpreter.
 
@@ -498,38 +533,95 @@ func TestVerif_C27_SignedTransactionValidates(t *testing.T) {
 			t.Fatalf("AddSignatures returned neither a transaction nor an error")
 		}
 
-		// what would be broadcast, as the network parses it
-		raw := tx.Serialize()
-		var msg wire.MsgTx
-		if err := msg.Deserialize(bytes.NewReader(raw)); err != nil {
-			t.Fatalf("the signed transaction does not parse: %v", err)
-		}
-		if len(msg.TxIn) != len(sc.inputs) || len(msg.TxOut) != len(sc.outputs) {
-			t.Fatalf("signed transaction has %d inputs / %d outputs, built with %d / %d", len(msg.TxIn), len(msg.TxOut), len(sc.inputs), len(sc.outputs))
-		}
-		for i, o := range sc.outputs {
-			if msg.TxOut[i].Value != o.Value || !bytes.Equal(msg.TxOut[i].PkScript, o.PublicKeyScript) {
-				t.Fatalf("output %d of the signed transaction differs from the output added to the builder", i)
-			}
-		}
-		hashCache := txscript.NewTxSigHashes(&msg)
-		for i, in := range sc.inputs {
-			op := msg.TxIn[i].PreviousOutPoint
-			if bitcoin.Hash(op.Hash) != in.utxo.Outpoint.TransactionHash || op.Index != in.utxo.Outpoint.OutputIndex {
-				t.Fatalf("input %d spends %v, the builder was given %x:%d", i, op, in.utxo.Outpoint.TransactionHash, in.utxo.Outpoint.OutputIndex)
-			}
-			engine, err := txscript.NewEngine(in.pkScript, &msg, i, txscript.StandardVerifyFlags, nil, hashCache, in.utxo.Value)
-			if err != nil {
-				t.Fatalf("input %d (%s): script engine refused the input: %v\n %s\n tx %x", i, in.kind, err, sc.render(), raw)
-			}
-			if err := engine.Execute(); err != nil {
-				t.Fatalf("input %d (%s) is rejected by the script interpreter under the standard flags: %v\n %s\n sighash %x\n tx %x",
-					i, in.kind, err, sc.render(), sigHashes[i], raw)
-			}
+		if i, raw, verr := c27Validate(t, sc, tx); verr != nil {
+			t.Fatalf("input %d (%s) is rejected by the script interpreter under the standard flags: %v\n %s\n sighash %x\n tx %x",
+				i, sc.inputs[i].kind, verr, sc.render(), sigHashes[i], raw)
 		}
 		mixed, labels := c27Labels(sc, sigHashes)
 		st.Case(mixed, sc.render(), labels...)
 	})
+}
+
+// c27Corrupt replaces one signature of the set (two for "swapped") by one that
+// does not match its input's signature hash. It returns the kind of damage,
+// the drawn victim and the lowest input index that carries a bad signature.
+func c27Corrupt(t *rapid.T, sc *c27Scenario, sigHashes []*big.Int, containers []*bitcoin.SignatureContainer) (string, int, int) {
+	n := len(containers)
+	victim := rapid.IntRange(0, n-1).Draw(t, "victim")
+	kinds := []string{"other-message", "flip-r", "flip-s", "other-key", "zero", "replayed-from-other-tx"}
+	if n >= 2 {
+		kinds = append(kinds, "other-input-sighash", "swapped", "other-input-sighash", "swapped")
+	}
+	kind := rapid.SampledFrom(kinds).Draw(t, "corruption")
+	curveN := btcec.S256().N
+	switch kind {
+	case "other-message":
+		// signature over a hash that differs from the input's sighash
+		delta := rapid.SampledFrom([]int64{1, -1, 256}).Draw(t, "delta")
+		m := new(big.Int).Add(sigHashes[victim], big.NewInt(delta))
+		if m.Sign() < 0 || m.BitLen() > 256 {
+			m = new(big.Int).Sub(sigHashes[victim], big.NewInt(delta))
+		}
+		containers[victim].R, containers[victim].S = c27Sign(t, sc.priv, m)
+	case "flip-r", "flip-s":
+		bit := rapid.IntRange(0, 255).Draw(t, "bit")
+		target := containers[victim].R
+		if kind == "flip-s" {
+			target = containers[victim].S
+		}
+		flipped := new(big.Int).Set(target)
+		flipped.SetBit(flipped, bit, flipped.Bit(bit)^1)
+		if kind == "flip-s" {
+			// N-S is the same signature in its other (high-S) form, not a mismatch
+			if new(big.Int).Add(flipped, containers[victim].S).Cmp(curveN) == 0 {
+				flipped.Add(flipped, big.NewInt(2))
+			}
+			containers[victim].S = flipped
+		} else {
+			containers[victim].R = flipped
+		}
+	case "other-key":
+		// made with another key, presented under the wallet's public key
+		other := c27GenKey(t, "otherKey")
+		if other.D.Cmp(sc.priv.D) == 0 {
+			other.D.Add(other.D, big.NewInt(1))
+		}
+		containers[victim].R, containers[victim].S = c27Sign(t, other, sigHashes[victim])
+	case "zero":
+		if rapid.Bool().Draw(t, "zeroR") {
+			containers[victim].R = big.NewInt(0)
+		} else {
+			containers[victim].S = big.NewInt(0)
+		}
+	case "replayed-from-other-tx":
+		// a valid wallet signature for the same inputs but another output set
+		other := &c27Scenario{priv: sc.priv, inputs: sc.inputs, chain: sc.chain}
+		for _, o := range sc.outputs {
+			other.outputs = append(other.outputs, &bitcoin.TransactionOutput{Value: o.Value + 1, PublicKeyScript: o.PublicKeyScript})
+		}
+		_, otherHashes := other.build(t)
+		if otherHashes[victim].Cmp(sigHashes[victim]) == 0 {
+			t.Fatalf("harness: changing an output value did not change the signature hash of input %d", victim)
+		}
+		containers[victim].R, containers[victim].S = c27Sign(t, sc.priv, otherHashes[victim])
+	case "other-input-sighash":
+		j := (victim + rapid.IntRange(1, n-1).Draw(t, "other")) % n
+		containers[victim].R, containers[victim].S = c27Sign(t, sc.priv, sigHashes[j])
+	case "swapped":
+		j := (victim + rapid.IntRange(1, n-1).Draw(t, "other")) % n
+		containers[victim], containers[j] = containers[j], containers[victim]
+	}
+	firstBad := victim
+	if kind == "swapped" {
+		for i := range containers {
+			r, s := c27Sign(t, sc.priv, sigHashes[i])
+			if containers[i].R.Cmp(r) != 0 || containers[i].S.Cmp(s) != 0 {
+				firstBad = i
+				break
+			}
+		}
+	}
+	return kind, victim, firstBad
 }
 
 // ---------------------------------------------------------------------------
@@ -544,70 +636,7 @@ func TestVerif_C27_MismatchedSignatureRejected(t *testing.T) {
 		builder, sigHashes := sc.build(t)
 		containers := c27Containers(t, sc, sigHashes)
 		n := len(containers)
-		victim := rapid.IntRange(0, n-1).Draw(t, "victim")
-		kinds := []string{"other-message", "flip-r", "flip-s", "other-key", "zero", "replayed-from-other-tx"}
-		if n >= 2 {
-			kinds = append(kinds, "other-input-sighash", "swapped", "other-input-sighash", "swapped")
-		}
-		kind := rapid.SampledFrom(kinds).Draw(t, "corruption")
-		curveN := btcec.S256().N
-		switch kind {
-		case "other-message":
-			// signature over a hash that differs from the input's sighash
-			delta := rapid.SampledFrom([]int64{1, -1, 256}).Draw(t, "delta")
-			m := new(big.Int).Add(sigHashes[victim], big.NewInt(delta))
-			if m.Sign() < 0 || m.BitLen() > 256 {
-				m = new(big.Int).Sub(sigHashes[victim], big.NewInt(delta))
-			}
-			containers[victim].R, containers[victim].S = c27Sign(t, sc.priv, m)
-		case "flip-r", "flip-s":
-			bit := rapid.IntRange(0, 255).Draw(t, "bit")
-			target := containers[victim].R
-			if kind == "flip-s" {
-				target = containers[victim].S
-			}
-			flipped := new(big.Int).Set(target)
-			flipped.SetBit(flipped, bit, flipped.Bit(bit)^1)
-			if kind == "flip-s" {
-				// N-S is the same signature in its other (high-S) form, not a mismatch
-				if new(big.Int).Add(flipped, containers[victim].S).Cmp(curveN) == 0 {
-					flipped.Add(flipped, big.NewInt(2))
-				}
-				containers[victim].S = flipped
-			} else {
-				containers[victim].R = flipped
-			}
-		case "other-key":
-			// made with another key, presented under the wallet's public key
-			other := c27GenKey(t, "otherKey")
-			if other.D.Cmp(sc.priv.D) == 0 {
-				other.D.Add(other.D, big.NewInt(1))
-			}
-			containers[victim].R, containers[victim].S = c27Sign(t, other, sigHashes[victim])
-		case "zero":
-			if rapid.Bool().Draw(t, "zeroR") {
-				containers[victim].R = big.NewInt(0)
-			} else {
-				containers[victim].S = big.NewInt(0)
-			}
-		case "replayed-from-other-tx":
-			// a valid wallet signature for the same inputs but another output set
-			other := &c27Scenario{priv: sc.priv, inputs: sc.inputs, chain: sc.chain}
-			for _, o := range sc.outputs {
-				other.outputs = append(other.outputs, &bitcoin.TransactionOutput{Value: o.Value + 1, PublicKeyScript: o.PublicKeyScript})
-			}
-			_, otherHashes := other.build(t)
-			if otherHashes[victim].Cmp(sigHashes[victim]) == 0 {
-				t.Fatalf("harness: changing an output value did not change the signature hash of input %d", victim)
-			}
-			containers[victim].R, containers[victim].S = c27Sign(t, sc.priv, otherHashes[victim])
-		case "other-input-sighash":
-			j := (victim + rapid.IntRange(1, n-1).Draw(t, "other")) % n
-			containers[victim].R, containers[victim].S = c27Sign(t, sc.priv, sigHashes[j])
-		case "swapped":
-			j := (victim + rapid.IntRange(1, n-1).Draw(t, "other")) % n
-			containers[victim], containers[j] = containers[j], containers[victim]
-		}
+		kind, victim, _ := c27Corrupt(t, sc, sigHashes, containers)
 
 		tx, err := builder.AddSignatures(containers)
 		if err == nil || tx != nil {
@@ -625,5 +654,81 @@ func TestVerif_C27_MismatchedSignatureRejected(t *testing.T) {
 		}
 		labels = append(labels, "corruption:"+kind, pos, "victim-kind:"+sc.inputs[victim].kind)
 		st.Case(mixed, fmt.Sprintf("%s corrupt=%s@%d", sc.render(), kind, victim), labels...)
+	})
+}
+
+// ---------------------------------------------------------------------------
+// Both clauses on one builder: the mismatching signature is rejected "before
+// any transaction is produced", i.e. the rejected call has produced nothing -
+// applying the matching signatures to the same builder afterwards must still
+// yield a transaction every input of which passes the script interpreter.
+
+// c27PartialApplyKey is the finding key of the defect found with this test on
+// the unrepaired tree: AddSignatures verifies and applies input by input, so a
+// call rejected at input k has already rewritten the inputs 0..k-1.
+const c27PartialApplyKey = "C27-addsignatures-partial-apply"
+
+func TestVerif_C27_RejectedCallLeavesBuilderUsable(t *testing.T) {
+	st := verifkit.New("C27", "TestVerif_C27_RejectedCallLeavesBuilderUsable")
+	defer st.Flush()
+	known := verifkit.Known(c27PartialApplyKey)
+	rapid.Check(t, func(t *rapid.T) {
+		sc := c27GenScenario(t)
+		builder, sigHashes := sc.build(t)
+
+		// 1..2 rejected calls, each with its own damaged signature set
+		rejected := rapid.SampledFrom([]int{1, 1, 2}).Draw(t, "rejectedCalls")
+		var history []string
+		lowestBad := len(sc.inputs)
+		for r := 0; r < rejected; r++ {
+			bad := c27Containers(t, sc, sigHashes)
+			kind, victim, firstBad := c27Corrupt(t, sc, sigHashes, bad)
+			tx, err := builder.AddSignatures(bad)
+			if err == nil || tx != nil {
+				t.Fatalf("AddSignatures accepted a %s signature on input %d of %d (error %v, transaction %v)\n %s", kind, victim, len(bad), err, tx != nil, sc.render())
+			}
+			history = append(history, fmt.Sprintf("%s@%d", kind, firstBad))
+			// inputs in front of the first bad signature were looked at (and
+			// possibly touched) by the rejected call
+			// (every rejected call walks from input 0 again: the farthest one counts)
+			if r == 0 || firstBad > lowestBad {
+				lowestBad = firstBad
+			}
+		}
+		// kinds of the inputs a rejected call passed before it hit the bad signature
+		var passed []string
+		passedOtherThanP2WPKH := false
+		for _, in := range sc.inputs[:lowestBad] {
+			passed = append(passed, in.kind)
+			if in.kind != "P2WPKH" {
+				passedOtherThanP2WPKH = true
+			}
+		}
+		mixed, labels := c27Labels(sc, sigHashes)
+		labels = append(labels, fmt.Sprintf("rejected-calls:%d", rejected), fmt.Sprintf("inputs-passed-before-rejection:%d", min(lowestBad, 3)))
+		desc := fmt.Sprintf("%s rejected=%v", sc.render(), history)
+		if known && passedOtherThanP2WPKH {
+			// open known finding: the retry is only exercised where the
+			// rejected call has passed nothing but P2WPKH inputs
+			st.Excluded(c27PartialApplyKey)
+			st.Case(false, desc, append(labels, "retry:excluded-known-finding")...)
+			return
+		}
+
+		tx, err := builder.AddSignatures(c27Containers(t, sc, sigHashes))
+		if err != nil || tx == nil {
+			t.Fatalf("after %d rejected call(s) %v the builder refuses the matching signatures: %v\n %s", rejected, history, err, sc.render())
+		}
+		if i, raw, verr := c27Validate(t, sc, tx); verr != nil {
+			key := ""
+			if i < lowestBad && sc.inputs[i].kind != "P2WPKH" {
+				key = " [finding-key=" + c27PartialApplyKey + "]"
+			}
+			t.Fatalf("after %d rejected call(s) %v the matching signatures give a transaction whose input %d (%s) is rejected by the script interpreter: %v%s\n inputs passed by a rejected call before its bad signature: %v\n %s\n tx %x",
+				rejected, history, i, sc.inputs[i].kind, verr, key, passed, sc.render(), raw)
+		}
+		labels = append(labels, "retry:validated")
+		st.Case(lowestBad > 0, desc, labels...)
+		_ = mixed
 	})
 }
